@@ -56,7 +56,7 @@ class Angle:
 
     def __init__(self, c, s, lo=None, hi=None, lo_open=False, hi_open=False, r=Fraction(1), p=0, half=None):
         self.c = lift(c)
-        self.s = lift(s)
+        self._s = s if callable(s) else lift(s)      # a callable delays the square root until the sine is really needed
         self.lo = None if lo is None else Fraction(lo)
         self.hi = None if hi is None else Fraction(hi)
         self.lo_open = lo_open
@@ -64,6 +64,12 @@ class Angle:
         self.r = Fraction(r)
         self.p = p
         self.half = half
+
+    @property
+    def s(self):
+        if callable(self._s):
+            self._s = lift(self._s())
+        return self._s
 
     # ---- constructors
     @staticmethod
@@ -75,7 +81,7 @@ class Angle:
         return a
 
     def _copy(self, **kw):
-        d = dict(c=self.c, s=self.s, lo=self.lo, hi=self.hi, lo_open=self.lo_open, hi_open=self.hi_open,
+        d = dict(c=self.c, s=self._s, lo=self.lo, hi=self.hi, lo_open=self.lo_open, hi_open=self.hi_open,
                  r=self.r, p=self.p, half=self.half)
         d.update(kw)
         return Angle(**d)
@@ -451,7 +457,7 @@ def _sin_of(q, t):
 
 def arccos(x):
     x = lift(x)
-    return Angle(x, (1 - x * x).sqrt(), 0, 1)
+    return Angle(x, (lambda: (1 - x * x).sqrt()), 0, 1)
 
 
 def arcsin(x):
